@@ -109,6 +109,7 @@ def add_metadata(rng, spec):
 
 
 def gen_replace_world(rng, **kw):
+    kw.setdefault("moderate_noise", True)
     spec = worlds.gen_find_world(rng, max_atoms=kw.pop("max_atoms", 40), min_copies=kw.pop("min_copies", 1), **kw)
     add_metadata(rng, spec)
     P = np.array(spec["pattern"]["positions"], float).reshape(-1, 3)
@@ -116,6 +117,30 @@ def gen_replace_world(rng, **kw):
     spec["fraction"] = rng.choice([1.0, 1.0, 1.0, 0.0, 0.5, 0.25, 0.75, 1 / 3, 2 / 3, round(rng.random(), 3), 0.999, 0.001])
     spec["replace_all"] = rng.random() < 0.25
     return spec
+
+
+def add_outside_bystanders(spec, unwrap):
+    """A copy of the world with extra bystander atoms of an element no pattern contains (Kr), STORED outside the cell box - a
+    legal object (unwrapped coordinates).  Returns (new spec, {atom index: lattice shift})."""
+    import copy
+    cell = np.array(spec["cell"], float)
+    sp2 = copy.deepcopy(spec)
+    moved = {}
+    sp2["atom_type_elements"] = list(spec["atom_type_elements"]) + ["Kr"]
+    sp2["atom_type_labels"] = list(spec["atom_type_labels"]) + ["Kr_out"]
+    sp2["atom_type_masses"] = list(spec["atom_type_masses"]) + [83.798]
+    for k, x in enumerate(unwrap["picks"]):
+        sh = np.array(unwrap["shifts"][k % 4], float)
+        if not sh.any():
+            sh = np.array([0.0, -1.0, 1.0])
+        f = np.array([x, (x * 7.3) % 1.0, (x * 13.7) % 1.0])
+        moved[len(sp2["elements"])] = sh
+        sp2["elements"].append("Kr")
+        sp2["positions"].append(((f + sh) @ cell).tolist())
+        sp2["atom_types"].append(len(sp2["atom_type_elements"]) - 1)
+        sp2["charges"].append(0.25 * (k + 1))
+        sp2["groups"].append(k)
+    return sp2, moved
 
 
 def build_structure(spec):
@@ -278,6 +303,7 @@ def run_replace(ctx, structure, search, replace, spec, script, fraction=None, re
         # the inner search was not observable at the tap (e.g. the code was restructured): reconstruct what it found by
         # running the public search under the same script (per-site decision streams make the tie-breaks identical)
         ctx.count("tap_not_fired")
+        run.found_reconstructed = True
         sample_keep = run.sampled
         ctx.rng.reset(script)
         try:
